@@ -174,11 +174,31 @@ def water(xyz, res_seq, chain="W", name="O", res_name="HOH"):
                  res_idx=-1)
 
 
+def strand_star_name(name):
+    """Old-style spelling of nucleotide atom names (alternative names of the
+    topology files): O5* for O5', C5M for the thymine methyl carbon."""
+    if name == "C7":
+        return "C5M"
+    if name.startswith("H"):
+        return name
+    return name.replace("'", "*")
+
+
+def strand_canonical_name(name):
+    if name == "C5M":
+        return "C7"
+    if name in ("OP1", "OP2"):
+        return {"OP1": "O1P", "OP2": "O2P"}[name]
+    if not name.startswith("H"):
+        return name.replace("*", "'")
+    return name
+
+
 def build_strand(seq, *, chain="N", start=1, naming="legacy", hydrogens=False,
                  origin=(0.0, 0.0, 0.0)):
     """seq: canonical nucleotide names (DA, DC, DG, DT, RA, RC, RG, RU).
     naming: 'legacy' (O1P/O2P), 'modern' (OP1/OP2), 'short' (A,C,G,U /
-    DA.. as-is; RNA one-letter residue names)."""
+    DA.. as-is; RNA one-letter residue names), 'star' (O5*, C5M)."""
     _aa, na, patches, canonical = T.load()
     atoms = []
     shift = np.asarray(origin, float)
@@ -200,6 +220,8 @@ def build_strand(seq, *, chain="N", start=1, naming="legacy", hydrogens=False,
             out = name
             if naming == "modern":
                 out = {"O1P": "OP1", "O2P": "OP2"}.get(name, name)
+            elif naming == "star":
+                out = strand_star_name(name)
             atoms.append(BAtom(
                 name=out, res_name=outname, chain=chain, res_seq=start + i,
                 icode="", xyz=np.array(tmpl.atoms[name].xyz) + t,
